@@ -15,21 +15,26 @@ def accepts (v : Nat) (p : Bytes) : Bool :=
   | 2 => false
   | _ => p.size ≥ 8 && p.getD 0 0 == 0xb7
 
-def envOf (p : Bytes) (h : List (Nat × Nat)) : Env :=
+/-- the harness' stack-usage calculator (`sc`): 64 bytes for every function -/
+def calcOf (c : Option Nat) : Option (Nat → Nat) := c.map fun _ => fun _ => 64
+
+def envOf (p : Bytes) (h : List (Nat × Nat)) (cal : Option Nat := none) : Env :=
   { prog := p, helpers := fun k => (h.find? (·.1 == k)).map (fun e => mix (e.2 % 4)), allowed := [],
-    usage := Interp.usageOf (Interp.stackEntries p) none }
+    usage := Interp.usageOf (Interp.stackEntries p) (calcOf cal) }
 
 def world : World :=
   { accepts := accepts
     jitCompiles := fun p h => EngineSem.jitCompile (envOf p h) == .ok
     clifCompiles := fun p h => EngineSem.clifCompile (envOf p h) == .ok }
 
-def runProg (p : Bytes) (h : List (Nat × Nat)) (fixed : Option (Nat × Nat)) : String :=
+def runProg (eng : Nat) (p : Bytes) (h : List (Nat × Nat)) (fixed : Option (Nat × Nat)) (cal : Option Nat) : String :=
   let stack : Region := ⟨0x7000000000, Array.replicate 512 0⟩
   let m : Memory := match fixed with
     | none => { mbuff := ⟨1, #[]⟩, mem := ⟨1, #[]⟩, stack, extra := [] }
     | some (d, e) => memOf .fixed ⟨0x5000000000, #[]⟩ ⟨1, #[]⟩ 0x6000000000 (Array.replicate (fixedBufLen d e) 0) d e stack []
-  match Interp.run (envOf p h) (Interp.init m) 1000 with
+  -- interpreter: frame sizes from the calculator in force; x86-64 JIT: its own call semantics (no frame table: F16);
+  -- Cranelift never compiles programs with local calls, elsewhere it agrees with the interpreter
+  match (if eng = 1 then EngineSem.jitRun (envOf p h) (Interp.init m) 1000 else Interp.run (envOf p h cal) (Interp.init m) 1000) with
   | .done r _ => "v" ++ bvHex r
   | .err _ _ => "err"
   | .panic => "panic" | .fault => "fault" | .timeout _ => "budget"
@@ -64,7 +69,7 @@ def handleApi (toks : List String) : String :=
       | none => "new-err"
       | some s0 =>
         let (_, outs) := runOps world s0 ops
-        ",".intercalate (outs.map fun o => match o with | .ok => "ok" | .err => "err" | .ran p h f => runProg p h f)
+        ",".intercalate (outs.map fun o => match o with | .ok => "ok" | .err => "err" | .ran eng p h f c => runProg eng p h f c)
     | _, _ => "bad-op"
   | _, _ => "bad-op"
 
